@@ -130,7 +130,7 @@ def entry(draw):
     else:
         targ, _, _ = draw(gc.spell(text))
     barg, _, _ = draw(gc.spell(bg, allow_translucent=False))
-    e = {"t": targ, "b": barg, "large": large}
+    e = {"t": targ, "b": barg, "large": large, "trgb": list(text), "brgb": list(bg)}
     if draw(st.integers(0, 5)) == 0:
         e["as_list"] = True
     return e
@@ -139,6 +139,13 @@ def entry(draw):
 @st.composite
 def strategy(draw):
     pool = draw(st.lists(entry(), min_size=1, max_size=4))
+    if draw(st.integers(0, 2)) == 0:
+        # the same colours again in ANOTHER notation (hex vs rgb() vs hsl() vs tuple): each entry keeps its own format
+        src = draw(st.sampled_from(pool))
+        if src.get("trgb"):
+            t2, _, _ = draw(gc.spell(tuple(src["trgb"]), kinds=["hex6", "rgb", "hsl", "tuple", "list", "HEX6", "rgbpct"], allow_translucent=False))
+            b2, _, _ = draw(gc.spell(tuple(src["brgb"]), kinds=["hex6", "rgb", "tuple", "HEX6"], allow_translucent=False))
+            pool.append({"t": t2, "b": b2, "large": src.get("large")})
     n = draw(st.sampled_from([0, 1, 2, 2, 3, 3, 4, 5, 6, 8]))
     idx = draw(st.lists(st.integers(0, len(pool) - 1), min_size=n, max_size=n))
     entries = [pool[i] for i in idx]
